@@ -1,5 +1,6 @@
 import Operon.Lemmas.C08
 import Operon.Gen.GateTable
+import Operon.Gen.BreakerTranslated
 /-!
 # C08 — circuit breaker trips at the threshold, isolates while open, recovers half-open
 
@@ -462,6 +463,62 @@ theorem c08_reset (cfg : Cfg) (H : Hashes) (s : State) :
     (step cfg H s .resetcb).1.br.cstate = .closed ∧ (step cfg H s .resetcb).1.br.failures = 0 ∧
     (step cfg H s .resetcb).1 = { s with br := { s.br with cstate := .closed, failures := 0 } } := by
   simp [step, resetBreaker]
+
+/-! ### the model is the translated source
+
+`Operon/Gen/BreakerTranslated.lean` is regenerated on every run from the AST of `loops.py` as it is now
+(harness/vf/extract/py2lean_breaker.py).  The theorems below prove that every translated method / block equals the
+hand-written model function for ALL configurations, clock values and breaker states, so every theorem of this file
+is a theorem about the translated source; an edit that changes the behaviour of one of these methods breaks the
+agreement theorem of that name, an edit that leaves the translator's subset makes the definition `untranslatable`
+(same effect), a rewrite inside the subset that keeps the behaviour leaves them provable. -/
+
+theorem c08_translation_agrees_check_circuit (cfg : Cfg) (now : Nat) (b : Breaker) :
+    Tr.check_circuit cfg now b = checkCircuit cfg now b := by
+  obtain ⟨cs, f, su, lf, ls, tr, te⟩ := b
+  cases cs <;> cases lf <;> simp [Tr.check_circuit, checkCircuit, elapsedOk] <;> (repeat' split) <;> simp_all
+
+theorem c08_translation_agrees_record_success (cfg : Cfg) (now : Nat) (b : Breaker) :
+    Tr.record_success cfg now b = recordSuccess now b := by
+  obtain ⟨cs, f, su, lf, ls, tr, te⟩ := b
+  cases cs <;> simp [Tr.record_success, recordSuccess]
+
+theorem c08_translation_agrees_record_failure (cfg : Cfg) (now : Nat) (b : Breaker) :
+    Tr.record_failure cfg now b = recordFailure cfg now b := by
+  obtain ⟨cs, f, su, lf, ls, tr, te⟩ := b
+  cases cs <;> simp [Tr.record_failure, recordFailure] <;> (repeat' split) <;> simp_all <;> omega
+
+theorem c08_translation_agrees_reset_circuit_breaker (cfg : Cfg) (now : Nat) (b : Breaker) :
+    Tr.reset_circuit_breaker cfg now b = resetBreaker b := by
+  simp [Tr.reset_circuit_breaker, resetBreaker]
+
+/-- `get_circuit_breaker_stats` reports the six breaker fields unchanged (these are the observations the
+    correspondence compares). -/
+theorem c08_translation_agrees_stats (b : Breaker) :
+    Tr.stats b = (b.cstate, b.failures, b.successes, b.lastFailure, b.lastSuccess, b.trips) := by
+  simp [Tr.stats]
+
+/-- the entry block of `run()`: the model's `rejects` / `enter` -/
+theorem c08_translation_agrees_run_entry (cfg : Cfg) (now : Nat) (b : Breaker) :
+    Tr.run_entry cfg now b = (if rejects cfg now b then b else enter cfg now b, !rejects cfg now b) := by
+  unfold Tr.run_entry
+  rw [c08_translation_agrees_check_circuit, checkCircuit_eq]
+  unfold rejects enter
+  cases cfg.breakerOn <;> cases hc : b.cstate <;> cases he : elapsedOk cfg now b <;> simp
+
+/-- the breaker-update block of `run()`: the model's `classifyRun` followed by `applyEvent` -/
+theorem c08_translation_agrees_run_update (cfg : Cfg) (now : Nat) (b : Breaker) (success blocked : Bool) (z y : Cls) :
+    Tr.run_update cfg now b success blocked z y = applyEvent cfg now b (classifyRun success blocked z y) := by
+  unfold Tr.run_update
+  rw [c08_translation_agrees_record_success, c08_translation_agrees_record_failure]
+  cases success <;> cases blocked <;> cases z <;> cases y <;> simp [classifyRun, applyEvent]
+
+/-- structure of `run()` around the translated blocks: the entry block comes before the cache lookup and the
+    agents, the `except` handler of the agent calls records a failure first, and nothing else in `run()` calls a
+    breaker method or writes a breaker field. -/
+theorem c08_translation_agrees_run_structure :
+    Tr.run_entry_first = true ∧ Tr.run_exception_records_failure = true ∧ Tr.run_other_breaker_sites = 0 := by
+  decide
 
 /-! ### Non-vacuity: concrete histories meeting the hypotheses -/
 
